@@ -51,6 +51,11 @@ def shapes(tier):
     for ff in (True, False):
         out.append((f'ensTP-then-P-ff{int(ff)}', ['Seq', [['Ens', ff, [['T', 'A', 1, 0, {}], ['P', 'B', 1, 0, {}]]], ['P', 'D', 1, 0, {}]]]))
         out.append((f'ens-then-PP-ff{int(ff)}', ['Seq', [['Ens', ff, [['T', 'A', 1, 0, {}], ['T', 'B', 1, 0, {}]]], ['P', 'D', 1, 0, {}], ['P', 'E', 1, 0, {}]]]))
+    # a failure that arrives at a composite from an upstream stage (raw exception through a thread queue, RemoteException through a pipe)
+    out.append(('T-then-ens', ['Seq', [['T', 'A', 1, 0, {}], ['Ens', False, [['T', 'B', 1, 0, {}], ['T', 'C', 1, 0, {}]]]]]))
+    out.append(('T-then-sw', ['Seq', [['T', 'A', 2, 0, {}], ['Sw', [['T', 'B', 1, 0, {}], ['T', 'C', 1, 3, {}]]]]]))
+    out.append(('P-then-ensTP', ['Seq', [['P', 'A', 1, 0, {}], ['Ens', True, [['T', 'B', 1, 0, {}], ['P', 'C', 1, 0, {}]]]]]))
+    out.append(('T-then-swTP-then-T', ['Seq', [['T', 'A', 1, 0, {}], ['Sw', [['T', 'B', 1, 0, {}], ['P', 'C', 1, 0, {}]]], ['T', 'D', 1, 0, {}]]]))
     out.append(('P-ensPT-PTP', ['Seq', [['P', 'A', 1, 0, {}], ['Ens', False, [['P', 'B', 1, 0, {}], ['T', 'C', 1, 0, {}]]], ['P', 'D', 1, 0, {}], ['T', 'E', 1, 0, {}], ['P', 'F', 1, 0, {}]]]))
     return out
 
